@@ -1018,10 +1018,33 @@ func c35(r *vkit.Run) {
 	r.Assume("x/net http2 Framer+hpack as client codec; a REJECT of a new request may be RST_STREAM, GOAWAY/close or a 4xx answer as long as the handler never runs")
 	if r.Replay != "" {
 		var w struct {
-			Ops []c35Op `json:"ops"`
+			Ops      []c35Op   `json:"ops"`
+			FlagStep *c35fStep `json:"flag_step"`
+			CurCase  struct {
+				Case struct {
+					InFlight []struct {
+						FlagStep *c35fStep `json:"flag_step"`
+					} `json:"in_flight"`
+				} `json:"case"`
+			} `json:"cur_case"` // witness of a crash report: the steps written ahead
 		}
 		if err := r.LoadReplay(&w); err != nil {
 			r.Inconclusive(err.Error())
+			return
+		}
+		var fsteps []*c35fStep
+		if w.FlagStep != nil {
+			fsteps = append(fsteps, w.FlagStep)
+		}
+		for _, f := range w.CurCase.Case.InFlight {
+			if f.FlagStep != nil {
+				fsteps = append(fsteps, f.FlagStep)
+			}
+		}
+		if len(fsteps) > 0 {
+			// one at a time: a crash now names the single step that was on the wire
+			c35fReplay(r, fsteps)
+			r.SetMinDistinct(0)
 			return
 		}
 		cs := &c35Case{Ops: w.Ops}
@@ -1033,6 +1056,11 @@ func c35(r *vkit.Run) {
 		r.SetMinDistinct(0)
 		return
 	}
+	// the flag-space driver first and alone: a fatal crash is then attributed to exactly one step
+	fsteps := c35fSteps(r)
+	r.Count("flag_steps_generated", int64(len(fsteps)))
+	c35FlagSpace(r, fsteps, c35fLanes)
+	c35fCoverage(r, fsteps)
 	n := envN(r.N(6000, 80000))
 	vkit.Parallel(n, 64, func(i int) {
 		cs := c35Gen(r, i)
